@@ -3,7 +3,8 @@
     (C12/SurfacesProofs.v); "not on any surface" is [on_any .. p = false]. *)
 From Coq Require Import Reals ZArith List Bool String.
 From Celer Require Import Base.Num Base.NumR Base.Vec3 C12.Surfaces C12.Transforms
-  C09.Shapes C09.Pipeline C09.ShapesProofs C09.PipelineProofs.
+  C09.Shapes C09.Pipeline C09.ShapesProofs C09.PipelineProofs
+  C09.BZone C09.BZoneProofs C09.Dedup C09.DedupProofs C09.GenPrismBranch.
 Import ListNotations.
 Local Open Scope R_scope.
 
@@ -211,3 +212,143 @@ Theorem C09_unit_volume_iff : forall tol u p, unit_good tol u -> unit_off tol u 
   unit_claims_built tol u p = unit_claims tol u p.
 Proof. exact unit_volume_iff. Qed.
 Print Assumptions C09_unit_volume_iff.
+
+(** ** bounding-zone propagation (BoundingZone.cc; model C09/BZone.v).
+    [zone_sound z Rg]: not negated: interior box inside Rg inside exterior box;
+    negated: interior box outside Rg, everything outside the exterior box in Rg. *)
+Theorem C09_bzone_negate_sound : forall z Rg,
+  zone_sound z Rg -> zone_sound (bz_negate z) (fun p => ~ Rg p).
+Proof. exact bz_negate_sound. Qed.
+Print Assumptions C09_bzone_negate_sound.
+
+(** calc_intersection AS CODED: sound for equal negation flags, and for mixed flags whenever the
+    shrink difference does not meet its defective branch ([mixed_guard]: the positive operand's
+    interior does not enclose the negated operand's exterior) *)
+Theorem C09_bzone_intersection_sound_partial : forall a b RA RB,
+  mixed_guard a b -> zone_sound a RA -> zone_sound b RB ->
+  zone_sound (bz_intersection a b) (fun p => RA p /\ RB p).
+Proof. exact bz_intersection_sound_guarded. Qed.
+Print Assumptions C09_bzone_intersection_sound_partial.
+
+(** ... and its "known outside" half (what becomes the volume's bounding box) for EVERY combination *)
+Theorem C09_bzone_intersection_outside_sound : forall a b RA RB,
+  zone_sound a RA -> zone_sound b RB -> outside_sound (bz_intersection a b) (fun p => RA p /\ RB p).
+Proof. exact bz_intersection_outside_sound. Qed.
+Print Assumptions C09_bzone_intersection_outside_sound.
+
+(** calc_union AS CODED: sound for equal negation flags *)
+Theorem C09_bzone_union_sound_partial : forall a b RA RB, zneg a = zneg b ->
+  zone_sound a RA -> zone_sound b RB -> zone_sound (bz_union a b) (fun p => RA p \/ RB p).
+Proof. exact bz_union_sound_same. Qed.
+Print Assumptions C09_bzone_union_sound_partial.
+
+(** FINDING (known, F5): box(9) & ~box(1): the interior of the result is box(1), which is outside the region *)
+Theorem C09_bzone_difference_refuted :
+  exists a b RA RB p, zone_sound a RA /\ zone_sound b RB /\ zneg (bz_intersection a b) = false /\
+    in_box (zint (bz_intersection a b)) p = true /\ ~ (RA p /\ RB p).
+Proof. exact bz_difference_refuted. Qed.
+Print Assumptions C09_bzone_difference_refuted.
+
+(** FINDING (known, F5, second half): box(1) | ~box(9): operands of the mixed union branch are swapped
+    (no shrink difference involved): the point (5,5,5) is declared inside although it is in neither region *)
+Theorem C09_bzone_union_refuted :
+  exists a b RA RB p, zone_sound a RA /\ zone_sound b RB /\ zneg (bz_union a b) = true /\
+    calc_difference (zint a) (zext b) false = calc_difference_fix (zint a) (zext b) false /\
+    in_box (zext (bz_union a b)) p = false /\ ~ (RA p \/ RB p).
+Proof. exact bz_union_refuted. Qed.
+Print Assumptions C09_bzone_union_refuted.
+
+(** the REPAIRED algebra (null interior when a encloses b; union operands per the code's own table)
+    is sound for every combination of negation flags *)
+Theorem C09_bzone_repaired_sound : forall a b RA RB, zone_sound a RA -> zone_sound b RB ->
+  zone_sound (bz_intersection_fix a b) (fun p => RA p /\ RB p) /\
+  zone_sound (bz_union_fix a b) (fun p => RA p \/ RB p).
+Proof. exact bz_repaired_sound. Qed.
+Print Assumptions C09_bzone_repaired_sound.
+
+(** BoundingBoxUtils calc_transform: the box of a transformed (finite) box encloses the image of
+    every point of the box, for ANY matrix and translation *)
+Theorem C09_bbox_transform_encloses : forall (tr : transformation R) lo hi p,
+  in_box (fin_box lo hi) p = true ->
+  in_box (fin_box (fst (box_transform tr lo hi)) (snd (box_transform tr lo hi))) (tf_up tr p) = true.
+Proof. exact box_transform_encloses. Qed.
+Print Assumptions C09_bbox_transform_encloses.
+
+(** ** soft de-duplication (SoftSurfaceEqual.cc, LocalSurfaceInserter.cc, SurfaceGridHash.cc; model C09/Dedup.v) *)
+(** two surfaces that SoftSurfaceEqual (as coded) calls equal give every point that is [clear_at] of
+    both (farther than the tolerance-scaled bound from the surface) the same sense: aligned and general
+    planes, centred / general spheres, centred / aligned cylinders *)
+Theorem C09_soft_equal_pair_same_sense : forall tl (a b : surface R) p, vtol tl ->
+  sse_t tl a b = true -> clear_at tl a p -> clear_at tl b p ->
+  forall sn, sense_holds sn a p = sense_holds sn b p.
+Proof. exact soft_equal_pair_same_sense. Qed.
+Print Assumptions C09_soft_equal_pair_same_sense.
+
+(** chained de-duplication: for ANY sequence of insertions and any returned ids the inserter may produce
+    (whatever near match the hash-table iteration meets first), a point clear of every inserted surface
+    has the same sense w.r.t. the returned surface as w.r.t. the inserted one *)
+Theorem C09_soft_dedup_chain_sound : forall tl l st' p, vtol tl ->
+  lsi_replay tl lsi_empty l = Some st' ->
+  (forall t, In t (map fst l) -> clear_at tl t p) ->
+  forall s r, In (s, r) l ->
+    exists u, nth_error (ls_surfs st') r = Some u /\ forall sn, sense_holds sn s p = sense_holds sn u p.
+Proof. exact lsi_dedup_sound. Qed.
+Print Assumptions C09_soft_dedup_chain_sound.
+
+(** ... but the returned surface may be farther than the tolerance from the inserted one (drift) *)
+Theorem C09_soft_dedup_drift_refuted :
+  exists tl s0 s1 s2 p st, vtol tl /\
+    lsi_run_first tl lsi_empty [s0; s1; s2] = ([0; 0; 0]%nat, st) /\
+    nth_error (ls_surfs st) 0 = Some s0 /\
+    sse_t tl s2 s0 = false /\ clear_at tl s2 p /\
+    sense_holds BIn s2 p = true /\ sense_holds BIn s0 p = false.
+Proof. exact lsi_drift_refuted. Qed.
+Print Assumptions C09_soft_dedup_drift_refuted.
+
+(** grid hash: hash points within eps share a key, so every stored surface of the same class whose hash
+    point is within eps of the query's is among the candidates *)
+Theorem C09_gridhash_keys_meet : forall gw eps h1 h2, 0 < gw -> 0 <= eps -> 2 * eps < gw ->
+  Rabs (h1 - h2) <= eps -> keys_meet (grid_keys gw eps (Some h1)) (grid_keys gw eps (Some h2)) = true.
+Proof. exact grid_keys_meet. Qed.
+Print Assumptions C09_gridhash_keys_meet.
+
+Theorem C09_gridhash_candidates_complete : forall (tl : tolerance R) (st : lsi_state R) s i t h1 h2,
+  0 < lsi_gw tl -> 0 <= lsi_eps tl -> 2 * lsi_eps tl < lsi_gw tl ->
+  nth_error (ls_surfs st) i = Some t -> same_kind s t = true ->
+  hash_point s = Some h1 -> hash_point t = Some h2 -> Rabs (h1 - h2) <= lsi_eps tl ->
+  In (i, t) (lsi_candidates tl st s).
+Proof. exact lsi_candidates_complete. Qed.
+Print Assumptions C09_gridhash_candidates_complete.
+
+(** ... but soft-equal surfaces can have hash points farther apart than eps = 2 rel (|position| > 2 length
+    scales): they fall into different bins and the duplicate is missed (both surfaces are kept) *)
+Theorem C09_gridhash_complete_refuted :
+  exists tl s t, vtol tl /\ 0 < lsi_gw tl /\ 2 * lsi_eps tl < lsi_gw tl /\
+    sse_t tl s t = true /\ same_kind s t = true /\
+    keys_meet (surf_keys tl s) (surf_keys tl t) = false /\
+    lsi_run_first tl lsi_empty [t; s] = ([0; 1]%nat, LSI [t; s] []).
+Proof. exact grid_hash_complete_refuted. Qed.
+Print Assumptions C09_gridhash_complete_refuted.
+
+(** GenPrism branch choice: a non-degenerate GenPrism every lateral face of which FAILS build()'s
+    planarity test [soft_equal(dot(lo_normal, hi_normal), 1)] (so that the twisted quadric is emitted)
+    is built exactly.  What remains partial: faces that pass the test (planar within tol): exact only for
+    parallel edges ([C09_genprism_planar_face_partial]), else approximated by the plane through three corners *)
+Theorem C09_genprism_twisted_branch_iff_inside : forall tol hz lo hi p,
+  0 < hz -> List.length lo = List.length hi ->
+  on_any [(BOut, planeZ (- hz)); (BIn, planeZ hz)] p = false ->
+  Forall4 (face_twisted tol hz p) lo (rot1 lo) hi (rot1 hi) ->
+  (all_hold (genprism_surfaces tol hz lo hi DegNone) p = true <-> inside_genprism hz lo hi p = true).
+Proof. exact genprism_twisted_iff_inside. Qed.
+Print Assumptions C09_genprism_twisted_branch_iff_inside.
+
+(** ... and more generally every non-degenerate GenPrism each lateral face of which is EXACT: it fails the
+    planarity test (twisted quadric) or has exactly parallel bottom / top edges (then dot(lo_normal, hi_normal) = 1,
+    the test passes for any tol > 0 and the plane is the documented face) *)
+Theorem C09_genprism_exact_faces_iff_inside : forall tol hz lo hi p,
+  0 < tol -> 0 < hz -> List.length lo = List.length hi ->
+  on_any [(BOut, planeZ (- hz)); (BIn, planeZ hz)] p = false ->
+  Forall4 (face_exact tol hz p) lo (rot1 lo) hi (rot1 hi) ->
+  (all_hold (genprism_surfaces tol hz lo hi DegNone) p = true <-> inside_genprism hz lo hi p = true).
+Proof. exact genprism_exact_iff_inside. Qed.
+Print Assumptions C09_genprism_exact_faces_iff_inside.
